@@ -6,7 +6,7 @@ C05 driver. One case line = one schedule on the real tracker:
 
   C05 q=<cap> w=<workers> n=<cids> <act> ... => <obs> | ret=<..> <obs> | ret=<..> <obs> ...
 
-acts   t:<pin>  u:<c>  r:<c>  R  e[P|U]:<c>  k[P|U]:<c>  x[P|U]:<c>  l:<c>  F:<0|1>  <k|x>..&<instr>      pin = c.k.m.t  (k ∈ h e g r z m 0, m ∈ r d)
+acts   t:<pin>  u:<c>  r:<c>  R  G  Rs  e[P|U]:<c>  k[P|U]:<c>  x[P|U]:<c>  l:<c>  F:<0|1>  <k|x>..&<instr>      pin = c.k.m.t  (k ∈ h e g r z m 0, m ∈ r d)
 obs    s=<status per cid>  a=<StatusAll entry per cid>  d=<daemon per cid>  h=<shared per cid>
        f=<failed flag per cid>  p=<parked live calls>  g=<Track calls still running>  L=<1: the daemon's reads fail>
 The first group is the observation before any action; then one group per act, taken at the stable point after it.
@@ -56,6 +56,8 @@ def showStatus (st : Status) : String :=
 
 def parseSimpleAct (s : String) : Option Act :=
   if s == "R" then some .recoverAll else
+  if s == "G" then some .snapList else
+  if s == "Rs" then some .recoverAllRest else
   match s.splitOn ":" with
   | ["t", p] => (parsePinTok p).map .track
   | ["u", c] => c.toNat?.map .untrack
@@ -226,6 +228,7 @@ def normInfo : Status → Status
 structure ModelOut where
   s : State
   ls : Bool := true       -- the daemon's reads work
+  snap : Option (Nat → Option PinSpec) := none   -- the pinset a RecoverAll in progress has already read
   ret : RetCode
   infos : List (Nat × Status)
   note : String := ""     -- non-empty: the model cannot follow the implementation's RecoverAll report
@@ -244,8 +247,12 @@ def recoverLazy (cfg : Cfg) (s : State) (c : Nat) (st : Status) : Nat → State 
 
 def obsStrings (cfg : Cfg) (s : State) (ls : Bool) : List String := showObs cfg.ncids (observeR (stabilize cfg s) ls)
 
-def applyAct (cfg : Cfg) (s : State) (ls : Bool) (f : Frame) : ModelOut :=
-  (fun (m : ModelOut) => match f.act with | .lsFail on => { m with ls := !on } | _ => { m with ls := ls }) <|
+def applyAct (cfg : Cfg) (s : State) (ls : Bool) (snap : Option (Nat → Option PinSpec)) (f : Frame) : ModelOut :=
+  (fun (m : ModelOut) => match f.act with
+    | .lsFail on => { m with ls := !on, snap := snap }
+    | .snapList => { m with ls := ls, snap := some s.shared }
+    | .recoverAllRest => { m with ls := ls, snap := none }
+    | _ => { m with ls := ls, snap := snap }) <|
   match f.act with
   | .track p =>
     let r := track cfg s p
@@ -257,11 +264,13 @@ def applyAct (cfg : Cfg) (s : State) (ls : Bool) (f : Frame) : ModelOut :=
   | .recover c =>
     let r := recoverR cfg s ls c
     { s := r.1, ret := if r.2 == .full then .full else .nil, infos := [(c, normInfo (statusR r.1 ls c))] }
-  | .recoverAll =>
+  | .recoverAll | .recoverAllRest =>
+    let snap := match f.act with | .recoverAllRest => snap | _ => none
     -- PinLs fails: StatusAll has nothing, RecoverAll reports the failure and recovers nothing
     if !ls then { s := s, ret := .other, infos := [] } else
     -- the statuses are those of the listing taken first (`recoverAllR`); follow the order the implementation reports
-    let snap := listingR s ls
+    -- (a listing of the pinset read earlier by this RecoverAll — action G — is the one it uses)
+    let snap := listingR (match snap with | some sh => { s with shared := sh } | none => s) ls
     let listed := (List.range cfg.ncids).filter (fun c => (snap c).isSome)
     let go := f.infos.foldl (fun (acc : State × List (Nat × Status) × String) ci =>
       let (st, out, note) := acc
@@ -300,13 +309,14 @@ def applyAct (cfg : Cfg) (s : State) (ls : Bool) (f : Frame) : ModelOut :=
     | none => { s := s, ret := .na, infos := [] }
   | .lose c => { s := lose s c, ret := .na, infos := [] }
   | .lsFail _ => { s := s, ret := .na, infos := [] }
+  | .snapList => { s := s, ret := .na, infos := [] }
   | .race _ _ => { s := s, ret := .na, infos := [], note := "race-not-expanded" }
 
 /-- the outcomes the model allows for one action, each already run to its stable point. A race has up to
     three: answer processed first (and a freed worker already at work), answer processed first (worker not
     yet), instruction first (the answer then meets a possibly cancelled operation). The daemon's effect has
     landed before either. -/
-def candidates (cfg : Cfg) (s : State) (ls : Bool) (f : Frame) : List ModelOut :=
+def candidates (cfg : Cfg) (s : State) (ls : Bool) (snap : Option (Nat → Option PinSpec)) (f : Frame) : List ModelOut :=
   let fin (m : ModelOut) : ModelOut := { m with s := stabilize cfg m.s }
   match f.act with
   | .race d i =>
@@ -314,13 +324,13 @@ def candidates (cfg : Cfg) (s : State) (ls : Bool) (f : Frame) : List ModelOut :
     let sel := match d with | .ok _ sl => sl | .err _ sl => sl | _ => none
     let isOk := match d with | .ok _ _ => true | _ => false
     match liveCallFor s c sel with
-    | none => [fin (applyAct cfg s ls { f with act := i })]
+    | none => [fin (applyAct cfg s ls snap { f with act := i })]
     | some op =>
       let s0 := if isOk then effect s op else s
       let retStep (st : State) : State := if isOk then retOk st op else retErr st op
-      let a1 := applyAct cfg (stabilize cfg (retStep s0)) ls { f with act := i }
-      let a2 := applyAct cfg (retStep s0) ls { f with act := i }
-      let b0 := applyAct cfg s0 ls { f with act := i }
+      let a1 := applyAct cfg (stabilize cfg (retStep s0)) ls snap { f with act := i }
+      let a2 := applyAct cfg (retStep s0) ls snap { f with act := i }
+      let b0 := applyAct cfg s0 ls snap { f with act := i }
       let b := { b0 with s := retStep b0.s }
       -- the daemon's failure log is written when the answer is released, i.e. before the instruction
       let kindUnpin := match s.calls.find? (fun k => k.op == op) with
@@ -336,7 +346,7 @@ def candidates (cfg : Cfg) (s : State) (ls : Bool) (f : Frame) : List ModelOut :
         { m with s := { m.s with failed := fl1 },
                  infos := match i with | .recover _ => f.infos.map (fun ci => (ci.1, normInfo ci.2)) | _ => m.infos }
       [fin (patch a1), fin (patch a2), fin (patch b)]
-  | _ => [fin (applyAct cfg s ls f)]
+  | _ => [fin (applyAct cfg s ls snap f)]
 
 def showInfos (l : List (Nat × Status)) : String :=
   if l.isEmpty then "-" else ",".intercalate (l.map (fun ci => s!"{ci.1}.{showStatus ci.2}"))
@@ -346,11 +356,11 @@ def frameStrings (n : Nat) (ret : RetCode) (infos : List (Nat × Status)) (o : O
 
 /-- first frame where the model and the implementation part (none = agreement). Races are resolved by
     trying the allowed outcomes in turn, backtracking when a later frame cannot be followed. -/
-partial def firstDiff (cfg : Cfg) : Nat → State → Bool → List Frame → Option (Nat × String)
-  | _, _, _, [] => none
-  | k, s, ls, f :: rest =>
+partial def firstDiff (cfg : Cfg) : Nat → State → Bool → Option (Nat → Option PinSpec) → List Frame → Option (Nat × String)
+  | _, _, _, _, [] => none
+  | k, s, ls, snap, f :: rest =>
     let got := frameStrings cfg.ncids f.ret f.infos f.obs
-    let cands := candidates cfg s ls f
+    let cands := candidates cfg s ls snap f
     let matching := cands.filter (fun m => m.note == "" && frameStrings cfg.ncids m.ret m.infos (observeR m.s m.ls) == got)
     match matching with
     | [] =>
@@ -363,7 +373,7 @@ partial def firstDiff (cfg : Cfg) : Nat → State → Bool → List Frame → Op
       let rec tryAll : List ModelOut → Option (Nat × String) → Option (Nat × String)
         | [], deepest => deepest
         | m :: more, deepest =>
-          match firstDiff cfg (k + 1) m.s m.ls rest with
+          match firstDiff cfg (k + 1) m.s m.ls m.snap rest with
           | none => none
           | some d =>
             let best := match deepest with
@@ -381,7 +391,7 @@ def healedSomewhere (n : Nat) : Obs → List Frame → Bool
 def arms (c : Case) : List String :=
   let has (p : Frame → Bool) := c.frames.any p
   let isInstr (a : Act) : Bool := match a with
-    | .track _ | .untrack _ | .recover _ | .recoverAll => true
+    | .track _ | .untrack _ | .recover _ | .recoverAll | .recoverAllRest => true
     | _ => false
   let quiesced := (c.frames.dropWhile (fun f => !isInstr (instrOf f.act))).any (fun f => quiescent c.cfg.ncids f.obs)
   let healed := healedSomewhere c.cfg.ncids c.obs0 c.frames
@@ -391,6 +401,7 @@ def arms (c : Case) : List String :=
     ++ (if has (fun f => match f.act with | .race _ _ => true | _ => false) then ["race"] else [])
     ++ (if has (fun f => match instrOf f.act with | .recover _ | .recoverAll => true | _ => false) then ["recover"] else [])
     ++ (if has (fun f => f.obs.lsDown && (match instrOf f.act with | .recover _ | .recoverAll => true | _ => false)) then ["lserr"] else [])
+    ++ (if has (fun f => match f.act with | .snapList => true | _ => false) then ["concurrent"] else [])
     ++ (if healed then ["heal"] else [])
     ++ (if quiesced then ["quiesce"] else [])
   if l.isEmpty then ["plain"] else l
@@ -399,7 +410,7 @@ def showArms (c : Case) : String := " ".intercalate ((arms c).map ("arm=" ++ ·)
 
 def trivial (c : Case) : Bool :=
   !(c.frames.any (fun f => match instrOf f.act with
-    | .track _ | .untrack _ | .recover _ | .recoverAll => true
+    | .track _ | .untrack _ | .recover _ | .recoverAll | .recoverAllRest => true
     | _ => false))
 
 /-- the shared pinset must record what the script instructed (harness sanity, not a property clause) -/
@@ -430,7 +441,7 @@ def answer (ws : List String) : String :=
       if want0 != showObs c.cfg.ncids c.obs0 then
         "diff " ++ showArms c ++ " at=init model=" ++ " ".intercalate want0
       else
-        match firstDiff c.cfg 1 (stabilize c.cfg init) true c.frames with
+        match firstDiff c.cfg 1 (stabilize c.cfg init) true none c.frames with
         | some (k, m) => s!"diff {showArms c} at={k} model={m}"
         | none => "ok " ++ showArms c ++ (if trivial c then " trivial" else "")
 
